@@ -182,13 +182,17 @@ pub struct ImpCase {
     pub form: u8,
     /// further importing conftests in sub-directories
     pub importers: u8,
+    /// instead of an editor notification, only QUERIES precede the scan (an early completion request
+    /// while the background scan has not started): they must not make the scan skip anything
+    #[serde(default)]
+    pub only_queries_first: bool,
 }
 
 pub fn imp_case() -> impl Strategy<Value = ImpCase> {
-    (mini_file(), mini_file(), 0u8..3, 0u8..6).prop_map(|(mut disk, mut buffer, form, importers)| {
+    (mini_file(), mini_file(), 0u8..3, 0u8..6, prop_oneof![3 => Just(false), 1 => Just(true)]).prop_map(|(mut disk, mut buffer, form, importers, only_queries_first)| {
         disk.import_of = 9;
         buffer.import_of = 9;
-        ImpCase { disk, buffer, form, importers }
+        ImpCase { disk, buffer, form, importers, only_queries_first }
     })
 }
 
@@ -239,6 +243,34 @@ pub fn check_imp(c: &ImpCase, info: &mut CaseInfo) -> Outcome {
     if disk_text != buffer_text {
         info.nontrivial = true;
     }
+    if c.only_queries_first {
+        info.classes.push("queries before the scan".into());
+        let db = FixtureDatabase::new();
+        let test_top = PathBuf::from(format!("{}/test_top.py", ws));
+        let conftest = PathBuf::from(format!("{}/conftest.py", ws));
+        let _ = db.get_available_fixtures(&test_top);
+        let _ = db.get_imported_fixtures(&conftest, &mut std::collections::HashSet::new());
+        let _ = db.find_fixture_definition(&test_top, 0, 14);
+        let _ = db.get_completion_context(&test_top, 1, 4);
+        db.scan_workspace(Path::new(&ws));
+        let cold = FixtureDatabase::new();
+        cold.scan_workspace(Path::new(&ws));
+        let (got, want) = (file_records(&db, &helper), file_records(&cold, &helper));
+        info.checks += 1;
+        info.nontrivial = !c.disk.fixtures.is_empty();
+        if got != want {
+            return Outcome::Fail(format!("queries answered before the scan changed what the scan indexed for a module reached through imports: {} instead of {}\n--- on disk ---\n{}", got, want, disk_text));
+        }
+        let avail = |d: &FixtureDatabase| {
+            let mut v: Vec<String> = d.get_available_fixtures(&test_top).iter().map(|x| x.name.clone()).collect();
+            v.sort();
+            v
+        };
+        if avail(&db) != avail(&cold) {
+            return Outcome::Fail(format!("queries answered before the scan changed the fixtures available to test_top.py afterwards: {:?} instead of {:?}", avail(&db), avail(&cold)));
+        }
+        return Outcome::Ok;
+    }
     // editor first, then the whole scan
     let db = FixtureDatabase::new();
     db.analyze_file(helper.clone(), &buffer_text);
@@ -256,7 +288,56 @@ pub fn check_imp(c: &ImpCase, info: &mut CaseInfo) -> Outcome {
     Outcome::Ok
 }
 
+/// The scan path visits a document the editor already sent, with the SAME text, strictly after the
+/// editor's analysis (no concurrency needed). That order is the recorded finding as far as the
+/// definitions are concerned (they are registered twice); everything else the index holds for the
+/// document - usages, undeclared-fixture findings, cached text - must still be there exactly once.
+#[derive(Clone, Debug, Serialize, Deserialize)]
+pub struct Revisit {
+    pub conftest: MiniFile,
+    pub doc: MiniFile,
+}
+
+pub fn revisit() -> impl Strategy<Value = Revisit> {
+    (mini_file(), mini_file()).prop_map(|(mut conftest, mut doc)| {
+        conftest.import_of = 9;
+        doc.import_of = 9;
+        Revisit { conftest, doc }
+    })
+}
+
+pub fn check_revisit(c: &Revisit, info: &mut CaseInfo) -> Outcome {
+    let (cp, dp) = (PathBuf::from(PATHS[0]), PathBuf::from(PATHS[1]));
+    let (ct, dt) = (render(&c.conftest), render(&c.doc));
+    let once = |db: &FixtureDatabase| {
+        let mut us: Vec<Value> = db.usages.get(&dp).map(|u| u.iter().map(|u| serde_json::json!([u.name, u.line, u.start_char])).collect()).unwrap_or_default();
+        us.sort_by_key(|v| v.to_string());
+        let mut un: Vec<Value> = db.get_undeclared_fixtures(&dp).iter().map(|u| serde_json::json!([u.name, u.line, u.start_char])).collect();
+        un.sort_by_key(|v| v.to_string());
+        let mut rev: Vec<Value> = db.usage_by_fixture.iter().flat_map(|e| e.value().iter().filter(|(p, _)| *p == dp).map(|(_, u)| serde_json::json!([u.name, u.line, u.start_char])).collect::<Vec<_>>()).collect();
+        rev.sort_by_key(|v| v.to_string());
+        serde_json::json!({"usages": us, "undeclared": un, "reverse_index": rev, "cached_text": db.file_cache.get(&dp).map(|t| t.to_string())})
+    };
+    let db = FixtureDatabase::new();
+    db.analyze_file(cp.clone(), &ct);
+    db.analyze_file(dp.clone(), &dt);
+    db.verif_analyze_file_fresh(dp.clone(), &dt);
+    let single = FixtureDatabase::new();
+    single.analyze_file(cp, &ct);
+    single.analyze_file(dp.clone(), &dt);
+    let (got, want) = (once(&db), once(&single));
+    info.checks += 1;
+    if !c.doc.body_uses.is_empty() || !c.doc.tests.is_empty() {
+        info.nontrivial = true;
+    }
+    if got != want {
+        return Outcome::Fail(format!("after the scan revisited an opened document with unchanged text the index holds for it {} instead of {}\n--- document ---\n{}", got, want, dt));
+    }
+    Outcome::Ok
+}
+
 pub fn run(ctx: &Ctx) {
+    ctx.run_prop_shrink("revisit", ctx.tier.pick(2_000, 100_000), 8, 300, revisit, |c, info| check_revisit(c, info));
     ctx.run_prop_shrink("scan-imports", ctx.tier.pick(500, 20_000), 8, 300, imp_case, |c, info| check_imp(c, info));
     ctx.run_prop_shrink("interleavings", ctx.tier.pick(2500, 60_000), 1, 600, case, |c, info| check_case(c, info));
 }
@@ -264,6 +345,10 @@ pub fn run(ctx: &Ctx) {
 pub fn judge(_ctx: &Ctx, sub: &str, case: &Value) -> Option<Outcome> {
     let mut info = CaseInfo::default();
     match sub {
+        "revisit" => {
+            let c: Revisit = from_case(case)?;
+            Some(check_revisit(&c, &mut info))
+        }
         "scan-imports" => {
             let c: ImpCase = from_case(case)?;
             Some(check_imp(&c, &mut info))
